@@ -12,6 +12,7 @@ CONSTANTS
   TamperMax = 2
   WireVersions <- VersionsSpread
   DupShapes <- ShapesLite
+  BulkVersions <- VersionsSpread
 INVARIANTS TypeOK PRedactedIffMismatch PRedactedNoop PRedactedForm PIntact PIdSigIff PSigsTogether
-  PSpellingNeutral PCaseIsAnotherKey PVariantIsAnotherKey PDupOneReading PDupGenuineOnly PDupNoReadingHash PDupForgerOnly PDupSummaries Emit
+  PSpellingNeutral PCaseIsAnotherKey PVariantIsAnotherKey PDupOneReading PDupGenuineOnly PDupNoReadingHash PDupForgerOnly PDupSummaries PSizeOfTheEvent PBulkStrippedNeutral PBulkRedactable PBulkIsOverOnTheWire Emit
 CHECK_DEADLOCK FALSE
